@@ -501,3 +501,76 @@ package transports
 //@   ensures [C06.t.parser] (eio4 ==> t.parser == ret(parser.Parserv4, 1)) && (!eio4 ==> t.parser == ret(parser.Parserv3, 1))
 //@   ensures [C06.t.rev]    t.protocol == ret(parser.Parser.Protocol, 1) && arg(parser.Parser.Protocol, 1, this) == t.parser
 //@   ensures [C06.t.b64]    t.supportsBinary == !uf_b_has(ctx.query, "b64", ctx.query.$bagver)
+
+// ---- refinement: the Transport model fields are the state of the base transport every transport is built on; each base
+// method is proved against the model contract of the interface method it implements -----------------------------------
+//@ represents (*transport) Transport.$writable = this._writable.v != 0
+//@ represents (*transport) Transport.$protocol = this.protocol
+//@ represents (*transport) Transport.$discarded = this._discarded.v != 0
+//@ represents (*transport) Transport.$sid = this.sid
+//@ represents (*transport) Transport.$maxbuf = this.maxHttpBufferSize
+//@ represents (*transport) Transport.$supportsBinary = this.supportsBinary
+//@ represents (*transport) Transport.$rstate = this.ReadyState()
+
+//@ func (*transport).Writable()
+//@   requires t != nil
+//@   modifies nothing
+//@ func (*transport).SetWritable(writable)
+//@   requires t != nil
+//@   modifies t._writable
+//@ func (*transport).Protocol()
+//@   requires t != nil
+//@   modifies nothing
+//@ func (*transport).Discarded()
+//@   requires t != nil
+//@   modifies nothing
+//@ func (*transport).Discard()
+//@   requires t != nil
+//@   modifies t._discarded
+//@ func (*transport).Sid()
+//@   requires t != nil
+//@   modifies nothing
+//@ func (*transport).SetSid(sid)
+//@   requires t != nil
+//@   modifies t.sid
+//@ func (*transport).MaxHttpBufferSize()
+//@   requires t != nil
+//@   modifies nothing
+//@ func (*transport).SetMaxHttpBufferSize(maxHttpBufferSize)
+//@   requires t != nil
+//@   modifies t.maxHttpBufferSize
+//@ func (*transport).SupportsBinary()
+//@   requires t != nil
+//@   modifies nothing
+//@ func (*transport).ReadyState()
+//@   inline
+//@   requires t != nil
+//@   modifies nothing
+//@ func (*transport).SetReadyState(state)
+//@   requires tOK(t)
+//@   modifies t._readyState
+//@   ensures t.ReadyState() == state
+
+// the concrete transports embed the base transport (as a Transport value) and override a few methods: their model state
+// is the embedded value's
+//@ represents (*polling) Transport.$writable = this.Transport.$writable
+//@ represents (*polling) Transport.$protocol = this.Transport.$protocol
+//@ represents (*polling) Transport.$discarded = this.Transport.$discarded
+//@ represents (*polling) Transport.$sid = this.Transport.$sid
+//@ represents (*polling) Transport.$maxbuf = this.Transport.$maxbuf
+//@ represents (*polling) Transport.$supportsBinary = this.Transport.$supportsBinary
+//@ represents (*polling) Transport.$rstate = this.Transport.$rstate
+//@ represents (*websocket) Transport.$writable = this.Transport.$writable
+//@ represents (*websocket) Transport.$protocol = this.Transport.$protocol
+//@ represents (*websocket) Transport.$discarded = this.Transport.$discarded
+//@ represents (*websocket) Transport.$sid = this.Transport.$sid
+//@ represents (*websocket) Transport.$maxbuf = this.Transport.$maxbuf
+//@ represents (*websocket) Transport.$supportsBinary = this.Transport.$supportsBinary
+//@ represents (*websocket) Transport.$rstate = this.Transport.$rstate
+//@ represents (*webTransport) Transport.$writable = this.Transport.$writable
+//@ represents (*webTransport) Transport.$protocol = this.Transport.$protocol
+//@ represents (*webTransport) Transport.$discarded = this.Transport.$discarded
+//@ represents (*webTransport) Transport.$sid = this.Transport.$sid
+//@ represents (*webTransport) Transport.$maxbuf = this.Transport.$maxbuf
+//@ represents (*webTransport) Transport.$supportsBinary = this.Transport.$supportsBinary
+//@ represents (*webTransport) Transport.$rstate = this.Transport.$rstate
